@@ -172,17 +172,29 @@ def make_models(eng_holder):
             func.loc(n), '' if c is not None else 'no case of the invariant is implied on the path [%s]' % '; '.join(
                 st.trail[-6:])))
         out = []
+        idx_c, pos_c = st.fields.get(('this', 'mArgIndex')), st.fields.get(('this', 'mArgCharPos'))
         for case in CASES:
-            s1 = st.copy()
-            for k, t in (('mArgIndex', 'int'), ('mArgCharPos', 'unsigned long'), ('mCurrArgStringLen', 'unsigned long')):
-                s1.fields[('this', k)] = eng.fresh('this.' + k, s1, t)
-            s1.fields[('this', 'mNextIsValue')] = lin(1) if case == 'C' else lin(0)
-            for flag in ('mRemainingArgumentStringAsValue', 'mAcceptDashedValue'):
-                s1.fields[('this', flag)] = eng.fresh('this.' + flag, s1, 'bool')
-            s1.assume(*case_constraints(eng, s1, case))
-            s1.trail.append('after the nested step: case %s' % case)
-            if s1.ok():
-                out.append((Obj('this', 'this'), s1))
+            # induction hypothesis of the progress rule: the nested step moves the cursor forward as well (the
+            # recursion is well-founded: it is entered only after the word index was incremented)
+            for forward in ('word', 'char'):
+                s1 = st.copy()
+                for k, t in (('mArgIndex', 'int'), ('mArgCharPos', 'unsigned long'), ('mCurrArgStringLen', 'unsigned long')):
+                    s1.fields[('this', k)] = eng.fresh('this.' + k, s1, t)
+                s1.fields[('this', 'mNextIsValue')] = lin(1) if case == 'C' else lin(0)
+                for flag in ('mRemainingArgumentStringAsValue', 'mAcceptDashedValue'):
+                    s1.fields[('this', flag)] = eng.fresh('this.' + flag, s1, 'bool')
+                s1.assume(*case_constraints(eng, s1, case))
+                if isinstance(idx_c, Lin) and isinstance(pos_c, Lin):
+                    if forward == 'word':
+                        s1.assume(ge(s1.fields[('this', 'mArgIndex')], idx_c + 1))
+                    else:
+                        s1.assume(*(eq(s1.fields[('this', 'mArgIndex')], idx_c) +
+                                    [ge(s1.fields[('this', 'mArgCharPos')], pos_c + 1)]))
+                elif forward == 'char':
+                    continue
+                s1.trail.append('after the nested step: case %s' % case)
+                if s1.ok():
+                    out.append((Obj('this', 'this'), s1))
         return out
     return m_recursive_step
 
@@ -208,7 +220,7 @@ def make_engine(prog):
     return eng
 
 
-def run(chk, prog, rule='R6', split_rule=None):
+def run(chk, prog, rule='R6', split_rule=None, progress_rule=None):
     fs = [f for f in prog.functions if (f.classq or '') == CLS]
     by = {}
     for f in fs:
@@ -341,6 +353,19 @@ def run(chk, prog, rule='R6', split_rule=None):
                         exit_case(f, s, tag)
                         total += 1
                         total += split_exit(f, s, tag)
+                        if progress_rule is not None and case != 'E' and key == 'operator++':
+                            # every step moves the cursor forward (word index, then character position): the loop
+                            # over the elements of an argument vector ends after finitely many steps
+                            i0, p0 = Lin.sym('this.mArgIndex'), Lin.sym('this.mArgCharPos')
+                            i1, p1 = s.fields.get(('this', 'mArgIndex')), s.fields.get(('this', 'mArgCharPos'))
+                            ok = isinstance(i1, Lin) and isinstance(p1, Lin) and (
+                                entails(s.cons, ge(i1, i0 + 1)) or
+                                (all(entails(s.cons, c_) for c_ in eq(i1, i0)) and entails(s.cons, ge(p1, p0 + 1))))
+                            total += 1
+                            chk.check(ok, progress_rule, f.name, 'every step of the iterator moves the cursor forward '
+                                      '(termination of the element loop) [%s]' % tag, f.loc(),
+                                      '' if ok else 'cursor before (%r, %r), after (%r, %r); path [%s]' % (
+                                          i0, p0, i1, p1, '; '.join(s.trail[-6:])))
     chk.samples.append({'R6_cursor_obligations': total})
     if eng.unsupported:
         chk.notes.append('cursor analysis, constructs evaluated as opaque: %s' % sorted(set(eng.unsupported))[:12])
